@@ -31,7 +31,8 @@ ALLOWED_CONST = {("const", 0), ("const", 0.0), K("FLOAT_MAX"), ("neg", K("FLOAT_
 class Flow:
     def __init__(self, w: Walker):
         self.w = w
-        self.tainted_fields: Set[str] = set()
+        # costs are weight-derived by construction of the forest (fit stores H.cost into Node.cost)
+        self.tainted_fields: Set[str] = {"Node.cost", "Heap.cost"}
         self.memo: Dict[Term, bool] = {}
         self._fix()
 
@@ -96,6 +97,7 @@ def check_order_only(rep, w: Walker, pre: str = "", events: List[Event] = None) 
     fl = Flow(w)
     stats = {"sources": 0, "uses": 0}
     seen = set()
+    noted = set()
 
     def bad(ev: Event, t: Term, how: str):
         rep.ev(pre + "ORDER-ONLY", ev, False,
@@ -113,6 +115,10 @@ def check_order_only(rep, w: Walker, pre: str = "", events: List[Event] = None) 
             if ctx not in ("value", "cmp", "ext", "arm", "log", "updatecost"):
                 bad(ev, t, ctx)
                 return
+            if (ev.seq, ctx) not in noted:
+                noted.add((ev.seq, ctx))
+                rep.ev(pre + "ORDER-ONLY", ev, True, f"weight-derived value used as {ctx}",
+                       construct=f"{ev.text()[:120]} [{ctx}]")
             if fl.is_source(t):
                 stats["sources"] += 1
                 # the selector's own sub-terms (indices, feature vectors) are not weights
